@@ -1502,3 +1502,98 @@ theorem parseExpr_renderExpr (e : List Tok) (hne : e ≠ []) (hwf : ∀ t ∈ e,
   unfold parseExpr
   rw [xpSteps_render e hne hwf hN]
   exact mapM_parseTok e hwf
+
+/-! ## Part 3: `get_attrib` -/
+
+def attribOf : Elem → Attr
+  | .mk _ _ a _ => a
+
+theorem parseElem_attrib (e : Elem) : (parseElem e).2.1 = attribOf e := by
+  cases e with
+  | mk tag text attrib kids => cases kids <;> rfl
+
+theorem scanItemsA_parseKids (t : Str) (kids : List Elem) (k : Nat) :
+    scanItemsA (parseKids kids) t (k : Int) = (kthTag t k kids).map (fun e => (attribOf e, valueOf e)) := by
+  induction kids generalizing k with
+  | nil => simp [parseKids, scanItemsA, kthTag]
+  | cons e rest ih =>
+    rw [parseKids_cons, parseElem_attrib]
+    simp only [scanItemsA, kthTag]
+    by_cases ht : e.tag = t
+    · simp only [ht, if_true]
+      cases k with
+      | zero => simp
+      | succ k' =>
+        have : ((k' + 1 : Nat) : Int) ≠ 0 := by omega
+        simp only [this, if_false]
+        have e2 : ((k' + 1 : Nat) : Int) - 1 = (k' : Int) := by omega
+        rw [e2, ih]
+    · simp only [ht, if_false]
+      exact ih k
+
+/-- below the element `e`, `get_attrib` with explicit indexes walks the positions of the element
+tree and returns the attributes of the element it arrives at (with or without children) -/
+theorem getAttrL_valueOf (e : Elem) (s : Str × Nat) (p : List (Str × Nat))
+    (hp : ∀ q ∈ s :: p, goodTag q.1 = true) :
+    getAttrL (valueOf e) ((s :: p).map renderStep) = .ok ((elemAt e (s :: p)).map attribOf) := by
+  induction p generalizing e s with
+  | nil =>
+    obtain ⟨t, k⟩ := s
+    have hg := hp (t, k) (by simp)
+    simp only [List.map_cons, List.map_nil, getAttrL, renderStep, getStep_indexed t hg k, elemAt]
+    rw [valueOf_kids]
+    cases hk : e.kids with
+    | nil => simp [kthTag]
+    | cons c cs =>
+      simp only [scanItemsA_parseKids]
+      cases kthTag t k (c :: cs) <;> simp
+  | cons s2 p ih =>
+    obtain ⟨t, k⟩ := s
+    have hg := hp (t, k) (by simp)
+    rw [List.map_cons, List.map_cons, getAttrL]
+    simp only [renderStep, getStep_indexed t hg k]
+    rw [elemAt, valueOf_kids]
+    cases hk : e.kids with
+    | nil => simp [kthTag]
+    | cons c cs =>
+      simp only [scanItemsA_parseKids]
+      cases hkt : kthTag t k (c :: cs) with
+      | none => simp
+      | some w =>
+        simp only [Option.map_some]
+        have := ih w s2 (fun q hq => hp q (by simp [hq]))
+        simpa [renderStep] using this
+
+theorem getAttrL_parseNode (e : Elem) (st : Str × Nat) (p : List (Str × Nat))
+    (hp : ∀ q ∈ st :: p, goodTag q.1 = true) :
+    getAttrL (parseNode e) ((st :: p).map renderStep) = .ok ((elemAt e (st :: p)).map attribOf) := by
+  have h := getAttrL_valueOf e st p hp
+  cases e with
+  | mk tag text attrib kids =>
+    cases kids with
+    | nil =>
+      obtain ⟨t, k⟩ := st
+      have hg := hp (t, k) (by simp)
+      simp [parseNode, parseKids, getAttrL, renderStep, getStep_indexed t hg k, scanItemsA, elemAt,
+        Elem.kids, kthTag]
+    | cons c cs =>
+      have : parseNode (.mk tag text attrib (c :: cs)) = valueOf (.mk tag text attrib (c :: cs)) := by
+        simp [parseNode, valueOf, parseElem]
+      rw [this]; exact h
+
+theorem getAttrS_renderIdxPath (root : XVal) (p : List (Str × Nat)) (hne : p ≠ [])
+    (hp : ∀ q ∈ p, goodTagS q.1 = true) :
+    getAttrS root (renderIdxPath p) = getAttrL root (p.map renderStep) := by
+  have hok : ∀ s ∈ p.map renderStep, StepOK s := by
+    intro s hs
+    obtain ⟨q, hq, rfl⟩ := List.mem_map.1 hs
+    exact stepOK_indexed q.1 q.2 (hp q hq)
+  unfold getAttrS renderIdxPath
+  rw [join_isEmpty _ (by simpa using hne) hok, splitPath_join _ (by simpa using hne) hok]
+  simp
+
+theorem goodTagS_goodTag (t : Str) (h : goodTagS t = true) : goodTag t = true := by
+  simp only [goodTagS, Bool.and_eq_true] at h
+  exact h.1
+
+end N0.NXml
